@@ -363,8 +363,26 @@ def _ob_task(args):
     return r
 
 
+def _worker_loop(wid, tq, rq):
+    signal.signal(signal.SIGINT, signal.SIG_IGN)
+    while True:
+        a = tq.get()
+        if a is None:
+            return
+        rq.put(("start", wid, a[0], time.time()))
+        try:
+            r = _ob_task(a)
+        except BaseException as e:
+            r = {"name": _OBS[a[0]].name, "status": "unknown", "info": "worker error: %r" % (e,), "backend": "-",
+                 "time": 0.0, "log": [], "names": [], "head": ""}
+        rq.put(("done", wid, a[0], r))
+
+
 def run_obligations(obs, specs, procs=None):
-    """obs: Obligation list; specs: list of (timeout, steps, tiers, dump) per obligation"""
+    """obs: Obligation list; specs: list of (timeout, steps, tiers, dump) per obligation.
+    Own process pool (fork: the workers inherit the z3 terms) with a hard wall-clock limit per
+    obligation: z3's soft timeout is not always honoured, an overdue worker is killed and the
+    obligation reported 'unknown' (never a verdict)."""
     global _OBS
     _OBS = list(obs)
     procs = procs or min(16, os.cpu_count() or 4)
@@ -372,22 +390,71 @@ def run_obligations(obs, specs, procs=None):
     if not obs:
         return results
     args = [(k,) + tuple(specs[k]) for k in range(len(obs))]
-    if procs == 1 or len(obs) == 1:
-        for a in args:
-            r = _ob_task(a)
-            results[r["name"]] = r
+    if len(obs) == 1:
+        r = _ob_task(args[0])
+        results[r["name"]] = r
         return results
     ctx = mp.get_context("fork")
-    with ProcessPoolExecutor(max_workers=procs, mp_context=ctx) as ex:
-        futs = {ex.submit(_ob_task, a): a[0] for a in args}
-        for f in as_completed(futs):
-            k = futs[f]
-            try:
-                r = f.result()
-            except Exception as e:
-                r = {"name": obs[k].name, "status": "unknown", "info": "worker died: %r" % (e,), "backend": "-",
-                     "time": 0.0, "log": [], "names": [], "head": ""}
-            results[r["name"]] = r
+    tq, rq = ctx.Queue(), ctx.Queue()
+    for a in args:
+        tq.put(a)
+    nproc = min(procs, len(args))
+    workers = {}
+    nextid = [0]
+
+    def spawn():
+        wid = nextid[0]
+        nextid[0] += 1
+        p = ctx.Process(target=_worker_loop, args=(wid, tq, rq), daemon=True)
+        p.start()
+        workers[wid] = p
+        return wid
+    for _ in range(nproc):
+        spawn()
+    running = {}
+    done = 0
+    import queue as _q
+    while done < len(args):
+        try:
+            msg = rq.get(timeout=0.5)
+        except _q.Empty:
+            msg = None
+        if msg is not None:
+            kind, wid, k, payload = msg
+            if kind == "start":
+                running[wid] = (k, payload)
+            else:
+                running.pop(wid, None)
+                if obs[k].name not in results:
+                    results[obs[k].name] = payload
+                    done += 1
+        now = time.time()
+        for wid, (k, t0) in list(running.items()):
+            hard = specs[k][0] * 6 + 20
+            if now - t0 > hard:
+                p = workers.pop(wid, None)
+                if p is not None:
+                    p.kill()
+                    p.join(1)
+                running.pop(wid, None)
+                if obs[k].name not in results:
+                    results[obs[k].name] = {"name": obs[k].name, "status": "unknown",
+                                            "info": "hard wall-clock limit (%ds): solver killed" % hard, "backend": "-",
+                                            "time": round(now - t0, 1), "log": [], "names": [], "head": ""}
+                    done += 1
+                spawn()
+        # a worker that died without reporting: respawn
+        for wid, p in list(workers.items()):
+            if not p.is_alive() and wid not in running:
+                workers.pop(wid)
+                if done < len(args):
+                    spawn()
+    for _ in workers:
+        tq.put(None)
+    for p in workers.values():
+        p.join(0.2)
+        if p.is_alive():
+            p.kill()
     return results
 
 
